@@ -62,10 +62,10 @@ def run(ctx):
             rec = dn.record(units, edges, feeds, products, list(order))
             traces.append(dict(id='G%d' % len(traces), units=units, edges=edges, order=list(order), cyclic=is_cyclic(units, edges), **rec))
     # random connected flowsheets of 5-10 units with 0-3 back-edges
-    for k in range(60 if quick else 1500):
+    for k in range(350 if quick else 3000):
         n = rng.randint(5, 10)
         us, edges, feeds, products = dn.random_flowsheet(rng, n, rng.choice([0, 0, 1, 2, 3]))
-        for _ in range(3 if quick else 6):
+        for _ in range(4 if quick else 8):
             order = list(us)
             rng.shuffle(order)
             rec = dn.record(us, edges, feeds, products, order)
